@@ -912,6 +912,18 @@ func (w *world) doOps(i int, stp Step, sm *sessModel, when string, before *snap)
 			}
 			continue
 		}
+		if t := p.GetOp(); t != spb.AFTOperation_ADD && t != spb.AFTOperation_REPLACE && t != spb.AFTOperation_DELETE {
+			// an operation of no defined type from the primary, correctly stamped: it passes the
+			// election gate and is then refused in-band; nothing changes
+			w.st.Rejected++
+			if len(out.OKs) != 0 || len(fibIDs) != 0 || len(out.Fails) != 1 || out.Fails[0] != o.ID {
+				if c.Gate || c.Acct || c.Proto {
+					w.fail("undefined-op-type-answer", "%s: operation of undefined type %v must be answered FAILED exactly once, got %v", owhen, t, r)
+				}
+				return false
+			}
+			continue
+		}
 		w.st.Accepted++
 		// accepted: RIB relation model
 		heldBefore := map[uint64]bool{}
